@@ -356,8 +356,8 @@ def install_tie_counters():
     orig_rank = assignment_ops.nearest_shortest_queue_ranking
 
     @functools.wraps(orig_rank)
-    def ranking(vehicle, station, env):
-        res = orig_rank(vehicle, station, env)
+    def ranking(vehicle, station, env, *a, **k):
+        res = orig_rank(vehicle, station, env, *a, **k)
         try:
             mech = env.mechatronics.get(vehicle.mechatronics_id)
             ranks = []
@@ -366,7 +366,9 @@ def install_tie_counters():
                 cs = station.state.get(cid)
                 if ch is None or cs is None or mech is None or not mech.valid_charger(ch):
                     continue
-                ranks.append((cs.enqueued_vehicles - cs.available_chargers, cid))  # proxy of the code's own rank
+                if cs.total_chargers == 0:
+                    continue
+                ranks.append((cs.enqueued_vehicles / cs.total_chargers, cid))  # the queue factor that decides the rank at one station
             vals = [r for r, _ in ranks]
             if len(vals) != len(set(vals)):
                 REC.calls["tie_plug_rank"] += 1
